@@ -242,21 +242,15 @@ impl<R: Read, TSpec> TagIterator<R, TSpec>
             return Ok(true)
         }
 
-        if self.buffer_offset.is_none() {
-            if !self.private_read(0)? {
+        // Move the unread bytes to the front of the buffer, make room for `length` bytes and read until they have arrived
+        self.buffer.copy_within(self.internal_buffer_position..self.buffered_byte_length, 0);
+        self.buffered_byte_length -= self.internal_buffer_position;
+        self.buffer_offset = Some(self.current_offset());
+        self.internal_buffer_position = 0;
+        self.ensure_capacity(length);
+        while self.buffered_byte_length < length {
+            if !self.private_read(self.buffered_byte_length)? {
                 return Ok(false);
-            }
-            self.buffer_offset = Some(0);
-            self.internal_buffer_position = 0;
-        } else {
-            while self.internal_buffer_position + length > self.buffered_byte_length {
-                self.buffer.copy_within(self.internal_buffer_position..self.buffered_byte_length, 0);
-                self.buffered_byte_length -= self.internal_buffer_position;
-                self.buffer_offset = Some(self.current_offset());
-                self.internal_buffer_position = 0;
-                if !self.private_read(self.buffered_byte_length)? {
-                    return Ok(false);
-                }
             }
         }
         Ok(true)
@@ -265,14 +259,22 @@ impl<R: Read, TSpec> TagIterator<R, TSpec>
     #[inline(always)]
     fn peek_tag_id(&mut self) -> Result<(u64, usize), TagIteratorError> {
         self.ensure_data_read(8)?;
-        if self.buffer[self.internal_buffer_position] == 0 {
+        // Only the bytes that were actually read belong to the stream; at the end of the stream there may be fewer than requested
+        let available = &self.buffer[self.internal_buffer_position..self.buffered_byte_length];
+        if available.is_empty() {
+            return Err(TagIteratorError::UnexpectedEOF { tag_start: self.current_offset(), tag_id: None, tag_size: None, partial_data: None });
+        }
+        if available[0] == 0 {
             return Ok((0, 1));
         }
-        let length = 8 - self.buffer[self.internal_buffer_position].ilog2() as usize;
-        let mut val = self.buffer[self.internal_buffer_position] as u64;
-        for i in 1..length {
+        let length = 8 - available[0].ilog2() as usize;
+        if length > available.len() {
+            return Err(TagIteratorError::UnexpectedEOF { tag_start: self.current_offset(), tag_id: None, tag_size: None, partial_data: None });
+        }
+        let mut val = available[0] as u64;
+        for byte in &available[1..length] {
             val <<= 8;
-            val += self.buffer[self.internal_buffer_position+i] as u64;
+            val += *byte as u64;
         }
         Ok((val, length))
     }
@@ -283,14 +285,10 @@ impl<R: Read, TSpec> TagIterator<R, TSpec>
         let (tag_id, id_len) = self.peek_tag_id()?;
         let spec_tag_type = <TSpec>::get_tag_data_type(tag_id);
         
-        let (size, size_len) = tools::read_vint(&self.buffer[(self.internal_buffer_position + id_len)..])
+        let (size, size_len) = tools::read_vint(&self.buffer[(self.internal_buffer_position + id_len)..self.buffered_byte_length])
         .or(Err(TagIteratorError::CorruptedFileData(CorruptedFileError::InvalidTagData{tag_id, position: self.current_offset() })))?
         .ok_or(TagIteratorError::UnexpectedEOF { tag_start: self.current_offset(), tag_id: Some(tag_id), tag_size: None, partial_data: None })?;
     
-        if self.buffered_byte_length <= id_len + size_len {
-            return Err(TagIteratorError::UnexpectedEOF { tag_start: self.current_offset(), tag_id: Some(tag_id), tag_size: None, partial_data: None });
-        }
-
         if matches!(spec_tag_type, Some(TagDataType::UnsignedInt) | Some(TagDataType::Integer) | Some(TagDataType::Float)) && size > 8 {
             return Err(TagIteratorError::CorruptedFileData(CorruptedFileError::InvalidTagData{tag_id, position: self.current_offset() }));
         }
@@ -374,7 +372,7 @@ impl<R: Read, TSpec> TagIterator<R, TSpec>
             if let Some(data) = self.read_tag_data(size)? {
                 data
             } else {
-                return Err(TagIteratorError::UnexpectedEOF { tag_start, tag_id: Some(tag_id), tag_size: Some(size), partial_data: Some(self.buffer[self.internal_buffer_position..].to_vec()) });
+                return Err(TagIteratorError::UnexpectedEOF { tag_start, tag_id: Some(tag_id), tag_size: Some(size), partial_data: Some(self.buffer[self.internal_buffer_position..self.buffered_byte_length].to_vec()) });
             }
         } else {
             return Err(TagIteratorError::CorruptedFileData(CorruptedFileError::InvalidTagData{ tag_id, position: tag_start }));
